@@ -21,10 +21,12 @@ PROPERTY = "C13"
 META = {
     "level": "exploration",
     "rule": (
-        "Generated undirected weighted multigraphs (<=8 nodes quick, <=11 thorough) from seven families (sparse, dense, "
+        "Generated undirected weighted multigraphs (<=8 nodes quick, <=11 thorough) from nine families (sparse, dense, "
         "random tree plus extra edges = connected by construction, 2-3 components = disconnected by construction, "
         "cycle with chords, path with heavy shortcuts from one end, binomial merge order that drives the union-find to "
-        "its maximal depth before cycle-closing edges arrive; this family has up to 10 nodes in the quick tier too) with parallel edges in both orientations and of different "
+        "its maximal depth before cycle-closing edges arrive; this family has up to 10 nodes in the quick tier too, "
+        "bundle-tie = 2-5 nodes with 4n+1..8n+6 edges, mostly self loops/parallel edges on a 2-3 value palette, the only "
+        "connecting edges tying at the heaviest value, bundle-spread = 2-4 nodes with 15-40 parallel edges of spread weights) with parallel edges in both orientations and of different "
         "weight, self loops, isolated nodes, weights from a 3-value palette / integers incl. negative and zero / all "
         "negative / dyadic k/4 floats / int-float mix, shuffled node numbering, edge order and edge orientation. "
         "kruskal(n, edges, backend='python') is called without and with allow_forest; prim is called on the symmetric "
@@ -91,7 +93,7 @@ def _tree_plus(draw, nodes, w, extra_max):
     return es
 
 
-FAMILIES = ["sparse", "dense", "tree-plus", "tree-plus", "components", "components", "cycle", "detour", "binomial"]
+FAMILIES = ["sparse", "dense", "tree-plus", "tree-plus", "components", "components", "cycle", "detour", "binomial", "bundle-tie", "bundle-tie", "bundle-spread"]
 WMODES = ["palette3", "palette3", "int", "neg", "dyadic", "mixed"]
 
 
@@ -129,6 +131,44 @@ def graphs(draw, tier="quick", salt=False):
         edges = [[i, (i + 1) % n, draw(w)] for i in range(n)]
         chords = draw(st.lists(st.tuples(st.integers(0, n - 1), st.integers(0, n - 1), w), max_size=n))
         edges += [list(c) for c in chords]
+    elif family == "bundle-tie":
+        # many more edges than nodes (m > 4n .. ~8n+6) on 2-5 nodes, almost all of them self loops / parallel edges
+        # inside two groups, weights from a 2- or 3-value palette; the only edges joining the two groups carry the
+        # heaviest palette value (so they tie with a crowd of useless edges), optionally one still heavier fallback.
+        # Any implementation that orders only a light prefix, or drops/reorders ties, loses a needed edge here.
+        want_pend = False
+        n = draw(st.integers(2, 5))
+        top = draw(st.integers(1, 2))
+        base = draw(st.integers(-2, 2))
+        wmode = f"tie{top + 1}"
+        w = st.integers(0, top).map(lambda x: x + base)
+        a = draw(st.integers(1, n - 1))
+        groups = [list(range(a)), list(range(a, n))]
+        edges = []
+        for g in groups:
+            for i in range(1, len(g)):
+                edges.append([g[draw(st.integers(0, i - 1))], g[i], draw(w)])
+        for _ in range(draw(st.integers(1, 2))):
+            edges.append([draw(st.sampled_from(groups[0])), draw(st.sampled_from(groups[1])), base + top])
+        if draw(st.booleans()):
+            edges.append([draw(st.sampled_from(groups[0])), draw(st.sampled_from(groups[1])), base + top + draw(st.integers(1, 4))])
+        junk = draw(st.integers(4 * n + 1, 8 * n + 4)) - len(edges)
+        for side, x, y, c in draw(st.lists(st.tuples(st.integers(0, 1), st.integers(0, 4), st.integers(0, 4), w), min_size=max(junk, 0), max_size=max(junk, 0))):
+            g = groups[side]
+            edges.append([g[x % len(g)], g[y % len(g)], c])
+    elif family == "bundle-spread":
+        # 2-4 nodes joined by 15-40 parallel edges with a spread of weights (heap order matters; a heap-based Prim
+        # holds far more entries than nodes and most of them go stale)
+        want_pend = False
+        n = draw(st.sampled_from([2, 3, 3, 4, 4]))
+        wmode = draw(st.sampled_from(["spread-int", "spread-dyadic"]))
+        w = st.integers(0, 9) if wmode == "spread-int" else st.integers(-8, 36).map(lambda k: k / 4)
+        pairs = [(u, v) for u in range(n) for v in range(u + 1, n)]
+        hot = draw(st.sampled_from(pairs))
+        pool = pairs + [hot] * draw(st.integers(0, 4))
+        m = draw(st.integers(15, 40))
+        edges = [[i, i + 1, draw(w)] for i in range(n - 1)]
+        edges += [[p[0], p[1], c] for p, c in draw(st.lists(st.tuples(st.sampled_from(pool), w), min_size=m - len(edges), max_size=m - len(edges)))]
     elif family == "binomial":
         # union-find depth: 2^k blocks merged pairwise level by level (level-j edges weigh base+j, so Kruskal must
         # take them in that order and builds a rank-k tree with a node at depth k), then heavier cycle-closing edges
@@ -277,7 +317,7 @@ def judge(area, info, res, out_edges, want_status, call):
     if defect is not None:
         raise Violation(f"{area}:{defect}", {"call": call, "detail": detail, "solution": repr(out_edges)[:300]})
     obj = res.objective
-    # exact: every weight is an int or k/4 with |k| <= 40 and there are < 40 edges, so float sums are exact
+    # exact: every weight is an int or k/4 with |k| <= 40 and at most n-1 <= 10 of them are summed, so float sums are exact
     if isinstance(obj, bool) or not isinstance(obj, (int, float)) or obj != obj or obj in (float("inf"), float("-inf")) or Fraction(obj) != total:
         raise Violation(f"{area}:objective-vs-sum", {"call": call, "objective": repr(obj), "sum": str(total)})
     if total != info["min"]:
